@@ -121,6 +121,8 @@ Section View.
      Type and Func of w. *)
   Variable NM : field -> field -> Prop.
   Variable J : field -> field -> Prop.
+  (* the write set before the passes (manual pre-marks and constructor-covered names) *)
+  Variable W0 : sset.
   Hypothesis NM_r : forall g r w, keeps_core g -> NM r w -> NM (g r) w.
   Hypothesis NM_w : forall g r w, keeps_core g -> NM r w -> NM r (g w).
   Hypothesis J_r : forall g r w, keeps_core g -> J r w -> J (g r) w.
@@ -133,7 +135,9 @@ Section View.
                          j < length W /\ s_has ws (f_name (rd W j)) = true
                          /\ NM (rd R i) (rd W j) /\ J (rd R i) (rd W j);
     iv_inj : forall i i' j, i < length R -> i' < length R ->
-                            f_target (rd R i) = Some j -> f_target (rd R i') = Some j -> i = i'
+                            f_target (rd R i) = Some j -> f_target (rd R i') = Some j -> i = i';
+    iv_mono : forall x, s_has W0 x = true -> s_has ws x = true;
+    iv_fresh : forall j, j < length W -> 1 <= flagcount (rd W j) -> s_has W0 (f_name (rd W j)) = false
   }.
 
   (* a claim of this direction: reader i takes the written field j, which is free *)
@@ -180,6 +184,12 @@ Section View.
       + assert (b = j) by congruence. subst b. exfalso. apply (NoOld a' Ha' Hab').
       + assert (b = j) by congruence. subst b. exfalso. apply (NoOld a Ha Hab).
       + apply (iv_inj _ _ _ I a a' b Ha Ha' Hab Hab').
+    - intros x Hx. apply s_has_add_mono. apply (iv_mono _ _ _ I); auto.
+    - intros k Hk Hf. rewrite upd_length in Hk. rewrite rd_upd in * by auto.
+      destruct (Nat.eqb_spec k j) as [->|N].
+      + rewrite Gname. destruct (s_has W0 (f_name (rd W j))) eqn:E; auto.
+        apply (iv_mono _ _ _ I) in E. congruence.
+      + apply (iv_fresh _ _ _ I); auto.
   Qed.
 
   (* a step of the other direction: a reader keeps its Target, a written field its flags *)
@@ -213,19 +223,24 @@ Section View.
       split; apply X; auto.
     - intros a a' b Ha Ha' Hab Hab'. rewrite upd_length in Ha, Ha'. rewrite RT in Hab, Hab'.
       eapply (iv_inj _ _ _ I); eauto.
+    - apply (iv_mono _ _ _ I).
+    - intros k Hk Hf. rewrite upd_length in Hk. destruct (RW k) as (->&E). rewrite E in Hf.
+      apply (iv_fresh _ _ _ I); auto.
   Qed.
 
   (* nothing planned yet *)
-  Lemma inv_init R W ws :
+  Lemma inv_init R W :
     (forall j, j < length W -> flagcount (rd W j) = 0) ->
     (forall i, i < length R -> f_target (rd R i) = None) ->
-    InvV R W ws.
+    InvV R W W0.
   Proof.
     intros HW HR. constructor.
     - intros j Hj. rewrite HW; auto.
     - intros j Hj H. rewrite HW in H; auto. lia.
     - intros i j Hi H. rewrite HR in H; auto. discriminate.
     - intros i i' j Hi Hi' H. rewrite HR in H; auto. discriminate.
+    - auto.
+    - intros j Hj H. rewrite HW in H; auto. lia.
   Qed.
 End View.
 
@@ -267,6 +282,8 @@ Section Passes.
   Variable ic : bool.
   Variable fns : list mfunc.
   Hypothesis fn_names : forall fn, In fn fns -> mf_name fn <> "".
+  (* the write sets before the passes *)
+  Variables W0s W0d : sset.
 
   (* r = source field, w = destination field *)
   Definition NMto (r w : field) : Prop := can_name_match r w tm ic = true.
@@ -311,8 +328,8 @@ Section Passes.
     unfold just, has_func in *. rewrite T, a1, a2, a3, a4, a5, a6. exact H.
   Qed.
 
-  Definition VTo (s : st) : Prop := InvV NMto (just true) (s_src s) (s_dst s) (s_wdst s).
-  Definition VFrom (s : st) : Prop := InvV NMfrom (just false) (s_dst s) (s_src s) (s_wsrc s).
+  Definition VTo (s : st) : Prop := InvV NMto (just true) W0d (s_src s) (s_dst s) (s_wdst s).
+  Definition VFrom (s : st) : Prop := InvV NMfrom (just false) W0s (s_dst s) (s_src s) (s_wsrc s).
   Definition Inv (s : st) : Prop := VTo s /\ VFrom s.
 
   Definition in_range (s : st) (i j : nat) : Prop := i < length (s_src s) /\ j < length (s_dst s).
@@ -330,9 +347,9 @@ Section Passes.
     apply negb_true_iff in Hf.
     split; [split|].
     - unfold VTo, to_claim. simpl.
-      apply (inv_claim NMto (just true) NMto_r NMto_w (just_r true)); auto.
+      apply (inv_claim NMto (just true) W0d NMto_r NMto_w (just_r true)); auto.
     - unfold VFrom, to_claim. simpl.
-      apply (inv_other NMfrom (just false) NMfrom_r NMfrom_w (just_r false) (just_w false)); auto.
+      apply (inv_other NMfrom (just false) W0s NMfrom_r NMfrom_w (just_r false) (just_w false)); auto.
       + apply kc_comp; auto. apply kc_target.
       + apply kf_comp; auto. apply kf_target.
     - unfold Core, to_claim, src_at, dst_at. simpl. rewrite !upd_length.
@@ -358,11 +375,11 @@ Section Passes.
     apply negb_true_iff in Hf.
     split; [split|].
     - unfold VTo, from_claim. simpl.
-      apply (inv_other NMto (just true) NMto_r NMto_w (just_r true) (just_w true)); auto.
+      apply (inv_other NMto (just true) W0d NMto_r NMto_w (just_r true) (just_w true)); auto.
       + apply kc_comp; auto. apply kc_target.
       + apply kf_comp; auto. apply kf_target.
     - unfold VFrom, from_claim. simpl.
-      apply (inv_claim NMfrom (just false) NMfrom_r NMfrom_w (just_r false)); auto.
+      apply (inv_claim NMfrom (just false) W0s NMfrom_r NMfrom_w (just_r false)); auto.
     - unfold Core, from_claim, src_at, dst_at. simpl. rewrite !upd_length.
       split; auto. split; auto. split; intros k.
       + fold (rd (s_src s) k). fold (rd (upd (s_src s) i g) k).
